@@ -3,7 +3,7 @@ from drv_handler import HandlerSuite, InvalidationSuite, FeedSuite, CrashFeedSui
 
 class Prop:
     ID = 'C06'
-    GEN = ['enums']
+    GEN = ['enums', 'node']
     MODEL_TARGETS = ['model/FailureHandler.vo']
     TARGETS = ['props/C06.vo']
     PROPS_FILE = 'props/C06.v'
@@ -17,7 +17,9 @@ class Prop:
             'and length. invalidation: random starter/stopper pipes (0-2 current and 0-2 planned application jobs each, '
             '0-3 current and 0-3 planned commands) on the real Starter/Stopper.on_instances_invalidation; non-trivial = '
             'some lost process is left to its job and some is handed over. feed_loss / feed_crash: exhaustive tables '
-            '(12 and 48 points) of who calls add_default_job, on the real FiniteStateMachine')
+            '(18 points: state x role x loss, 8 evaluations each; 96 points: strategy x Master x crashed x forced x '
+            'Master in OPERATION/ELECTION) of who calls add_default_job and whether RESTART/SHUTDOWN is entered, on the '
+            'real FiniteStateMachine')
     ASSUMPTIONS = ['the start sequence membership of a process and its application do not change while jobs are pending '
                    '(static context in the model)',
                    'application.stopped() is set by data (ApplicationStatus._state) and read back from the real object',
